@@ -179,6 +179,7 @@ def R_trace(toks):
 def R_subst(toks, arg):
     """generic declared substitution `from=>to` on token sequences (used by named rules below)."""
     frm, to = arg.split("=>")
+    frm = frm.replace("\u2e34", ","); to = to.replace("\u2e34", ",")     # a comma inside a substitution is written U+2E34 in the directive (commas separate rewrites)
     f = [t.text for t in tokenize(frm)[0]]
     out = []; n = 0; i = 0
     while i < len(toks):
@@ -912,3 +913,32 @@ def R_pollq(toks):
                 i = close + 1; n += 1; continue
         out.append(toks[i]); i += 1
     return out, n
+
+
+def R_mutparam(toks):
+    """`fn f(mut x: T, …) { body }` becomes `fn f(x__in: T, …) { let mut x = x__in; body }`: the same function in Rust (a `mut` binding of a
+    by-value parameter is a local the body may reassign); needed because a postcondition must speak about the value the caller
+    passed, and Verus reads a `mut` parameter in `ensures` as its value at exit."""
+    k = _fn_kw(toks)
+    if k is None: return toks, 0
+    j = k + 1
+    while toks[j].text != "(":
+        j = match_close(toks, j) + 1 if (toks[j].kind == "punct" and toks[j].text in OPEN) else j + 1
+    pe = match_close(toks, j)
+    names = []; out = list(toks); i = j + 1; drop = []
+    while i < pe:
+        t = out[i]
+        if t.kind == "punct" and t.text in OPEN: i = match_close(out, i) + 1; continue
+        if t.text == "mut" and out[i+1].kind == "ident" and out[i+2].text == ":" and out[i-1].text in ("(", ","):
+            names.append(out[i+1].text); drop.append(i)
+        i += 1
+    if not names: return toks, 0
+    bo = _body_open(out, k)
+    ins = []
+    for n in names:
+        ins += _mk(["let", "mut", n, "=", n + "__in", ";"], out[bo], " ")
+    out[bo+1:bo+1] = ins
+    for d in sorted(drop, reverse=True):
+        out[d+1] = out[d+1].copy(); out[d+1].text = out[d+1].text + "__in"
+        out[d+1].pre = out[d].pre; del out[d]
+    return out, len(names)
